@@ -388,10 +388,12 @@ class Acl(AceGroup):
         if not group_by:
             return
         ungrouped_l: LUAce = []
+        identity_d: Dict[str, DAny] = {}  # uuid, note of the blocks that are rebuilt under the same name
         for item in self._items:
             if isinstance(item, (Ace, Remark)):
                 ungrouped_l.append(item)
             elif isinstance(item, AceGroup):
+                identity_d.setdefault(item.name, dict(uuid=item.uuid, note=item.note))
                 _ungrouped = self._ungroup(item.items)
                 ungrouped_l.extend(_ungrouped)
 
@@ -419,6 +421,7 @@ class Acl(AceGroup):
                     max_ncwb=self.max_ncwb,
                     name=group_name,
                     items=aces_items,
+                    **identity_d.get(group_name, {}),
                 )
                 grouped_items.append(aceg_o)
         self._items = grouped_items
